@@ -24,12 +24,12 @@
        that is neither.
      * peek / peekPeek while standing on the last token(s): every such test is guarded by a test
        on cur that fails for EOF and SEMICOLON alike, and names a token that is neither.
-     * ONE real asymmetry: the skipping loop of parseParenthesizedSelect
-       (`for depth > 0 && !p.currentIs(token.EOF)`) stops at EOF but runs THROUGH a SEMICOLON.
-       "(1" alone is accepted without error; followed by "; SELECT 2" the loop swallows the
-       second statement.  [paren_skip_closed] excludes exactly this class (the statement takes the
-       skipping branch and its parenthesis is not closed inside the statement);
-       [skip_branch_refuted] is the witness. *)
+     * the skipping loop of parseParenthesizedSelect
+       (`for depth > 0 && !p.currentIs(token.EOF) && !p.currentIs(token.SEMICOLON)`) stops at
+       both ([skip_parens_ext]).  Before /repo 1a6cd4528 it ran THROUGH a SEMICOLON -- the one
+       real asymmetry this proof found: "(1" alone was accepted without error, followed by
+       "; SELECT 2" the loop swallowed the second statement.  With the fix no side condition is
+       left ([unclosed_paren_is_delimited] is the former counterexample). *)
 From Coq Require Import List NArith Arith Bool String Lia ZifyN ZifyNat ZifyBool.
 From DC Require Import Base.Item Gen.TokenTable.
 From DC Require Import Select.SelectParseModel Select.SelectCoreFuel.
@@ -597,69 +597,50 @@ Section Delim.
 
   (* ---- statements ---- *)
 
-  (* the skipping loop of parseParenthesizedSelect stops at the closing parenthesis when there is one *)
-  Lemma skip_parens_ext : forall l d, skip_parens d l <> [] ->
-    skip_parens d (l ++ rest) = skip_parens d l ++ rest.
+  (* the skipping loop of parseParenthesizedSelect stops at the SEMICOLON
+     (`for depth > 0 && !p.currentIs(token.EOF) && !p.currentIs(token.SEMICOLON)`) *)
+  Lemma skip_parens_ext : forall l d, skip_parens d (l ++ rest) = skip_parens d l ++ rest.
   Proof.
-    induction l as [|x r IH]; intros d H; [exfalso; apply H; reflexivity|].
-    cbn [app skip_parens] in *.
-    destruct (if it_tok x =? T_LPAREN then S d else if it_tok x =? T_RPAREN then Nat.pred d else d);
-      [reflexivity|]. apply IH. exact H.
+    destruct rest_cons as (sm & r' & Er & Hsm).
+    induction l as [|x r IH]; intros d.
+    - cbn [app skip_parens]. rewrite Er. cbn [skip_parens]. rewrite Hsm. reflexivity.
+    - cbn [app skip_parens]. destruct (it_tok x =? T_SEMICOLON); [reflexivity|].
+      destruct (if it_tok x =? T_LPAREN then S d else if it_tok x =? T_RPAREN then Nat.pred d else d);
+        [reflexivity|]. apply IH.
   Qed.
 
   Lemma parse_parenthesized_select_sim : forall f f' s s', Rst s s' -> toks s <> [] ->
-    (negb (tok_at (tl (toks s)) =? T_SELECT) && negb (tok_at (tl (toks s)) =? T_WITH) &&
-     negb (tok_at (tl (toks s)) =? T_LPAREN) = true -> skip_parens 1 (tl (toks s)) <> []) ->
     simres (parse_parenthesized_select f s) (parse_parenthesized_select f' s').
   Proof.
-    intros f f'. start. intros Hne Hskip. nonempty l Hne. cbn [toks tl] in Hskip.
+    intros f f'. start. intros Hne. nonempty l Hne.
     pose proof (parse_select_with_union_sim f f') as Hq.
     pose proof (union_loop_sim f f') as Hu.
     unfold parse_parenthesized_select, expect, ret. cbv beta zeta. acc_cbn.
-    destruct l as [|y l].
-    - exfalso. apply Hskip; reflexivity.
-    - acc_cbn.
-      destruct (negb (it_tok y =? T_SELECT) && negb (it_tok y =? T_WITH) && negb (it_tok y =? T_LPAREN)) eqn:E.
-      + specialize (Hskip E).
-        change (y :: l ++ rest) with ((y :: l) ++ rest). rewrite (skip_parens_ext _ _ Hskip).
-        destruct (skip_parens 1 (y :: l)) as [|z L]; [exfalso; apply Hskip; reflexivity|]. sim_auto.
-      + clear Hskip. sim_auto.
+    rewrite skip_parens_ext.
+    destruct (skip_parens 1 l) as [|z L] eqn:Esk; sim_auto.
   Qed.
 
-  (* the statement takes the skipping branch only with its parenthesis closed inside the statement *)
-  Definition paren_skip_closed (ts : list item) : bool :=
-    match ts with
-    | p :: l1 =>
-        if (it_tok p =? T_LPAREN) &&
-           (negb (tok_at l1 =? T_SELECT) && negb (tok_at l1 =? T_WITH) && negb (tok_at l1 =? T_LPAREN))
-        then negb (is_nil (skip_parens 1 l1))
-        else true
-    | [] => true
-    end.
-
   Lemma parse_statement_raw_sim : forall f f' s s', Rst s s' -> toks s <> [] ->
-    paren_skip_closed (toks s) = true ->
     simres (parse_statement_raw f s) (parse_statement_raw f' s').
   Proof.
-    intros f f'. start. intros Hne Hskip. nonempty l Hne. cbn [toks paren_skip_closed] in Hskip.
+    intros f f'. start. intros Hne. nonempty l Hne.
     unfold parse_statement_raw, ret. norm.
     destruct (it_tok i =? T_SELECT) eqn:E1; [apply parse_select_with_union_sim; rst_solve|].
-    destruct (it_tok i =? T_LPAREN) eqn:E2.
-    - apply parse_parenthesized_select_sim; [rst_solve|discriminate|]. cbn [toks tl]. intros Hc.
-      rewrite Hc in Hskip. cbn [andb] in Hskip. destruct (skip_parens 1 l); [discriminate Hskip|discriminate].
-    - sim_auto.
+    destruct (it_tok i =? T_LPAREN) eqn:E2;
+      [apply parse_parenthesized_select_sim; [rst_solve|discriminate]|].
+    sim_auto.
   Qed.
 
   (* a statement accepted alone without error, followed by the SEMICOLON: every sufficient fuel *)
   Theorem parse_statement_raw_semi : forall f f' ts q,
-    ts <> [] -> paren_skip_closed ts = true ->
+    ts <> [] ->
     parse_statement_raw f (mkSt ts []) = Ok (q, mkSt [] []) ->
     (3 * List.length (ts ++ rest) + 2 <= f')%nat ->
     parse_statement_raw f' (mkSt (ts ++ rest) []) = Ok (q, mkSt rest []).
   Proof.
-    intros f f' ts q Hne Hskip H Hf.
+    intros f f' ts q Hne H Hf.
     pose proof (parse_statement_raw_sim f f' (mkSt ts []) (mkSt (ts ++ rest) [])) as S.
-    specialize (S ltac:(split; [reflexivity|intros _; reflexivity]) Hne Hskip).
+    specialize (S ltac:(split; [reflexivity|intros _; reflexivity]) Hne).
     rewrite H in S.
     pose proof (parse_statement_raw_fin f' (mkSt (ts ++ rest) []) Hf) as G.
     destruct (parse_statement_raw f' (mkSt (ts ++ rest) [])) as [[q' [l' e']]|p|o|]; cbn [simres fin] in S, G;
@@ -672,24 +653,22 @@ End Delim.
 (* ------------------------------------------------------------------------------------------ *)
 (** * The statement parser of the model is delimiter-respecting
 
-   FULL STATEMENT (C06 premise for the fragment; FALSE as it stands, see [delimited_refuted]):
-     forall ts q rest, (rest = [] \/ tok_at rest = T_SEMICOLON) ->
-       parse_model ts = Ok (q, [], []) -> parse_model (ts ++ rest) = Ok (q, rest, []).
-   PROVED ([*_partial]): the same under [paren_skip_closed ts = true], i.e. for every statement
-   except those that take the token-skipping branch of parseParenthesizedSelect ("(" not followed
-   by SELECT / WITH / "(") without closing that parenthesis.  Nothing else is excluded: the
-   simulation covers every other path of the model, including the nil-operand paths
-   ("SELECT 1 +", "SELECT a FROM", "SELECT 1 ORDER BY"). *)
+   The C06 premise for the fragment, at full strength: every token list that the model accepts
+   alone, completely and without error, is parsed to the same statement when a statement boundary
+   (end of input, or a SEMICOLON token and anything after it) follows, and exactly the boundary
+   is left.  No side condition: the simulation covers every path of the model, including the
+   nil-operand paths ("SELECT 1 +", "SELECT a FROM", "SELECT 1 ORDER BY") and the token-skipping
+   branch of parseParenthesizedSelect ("(1"). *)
 
 (* parse_statement_raw is the transcription of parseStatement; parse_statement / parse_model_fuel
    add the printer-fragment check, which reads only the statement and whether p.errors is empty *)
-Theorem parse_model_fuel_semi_partial : forall f f' ts q rest,
-  paren_skip_closed ts = true -> tok_at rest = T_SEMICOLON ->
+Theorem parse_model_fuel_semi : forall f f' ts q rest,
+  tok_at rest = T_SEMICOLON ->
   parse_model_fuel f ts = Ok (q, [], []) ->
   (3 * List.length (ts ++ rest) + 2 <= f')%nat ->
   parse_model_fuel f' (ts ++ rest) = Ok (q, rest, []).
 Proof.
-  intros f f' ts q rest Hskip Hrest H Hf. unfold parse_model_fuel, parse_statement in *.
+  intros f f' ts q rest Hrest H Hf. unfold parse_model_fuel, parse_statement in *.
   destruct (parse_statement_raw f (mkSt ts [])) as [[q0 s1]|p|o|] eqn:Hr; cbn [bind] in H; try discriminate H.
   destruct (printer_check (q0, s1)) as [[q1 s2]|p|o|] eqn:Hc; cbn [bind] in H; try discriminate H.
   inversion H; subst. clear H.
@@ -701,43 +680,42 @@ Proof.
   destruct Hq as [-> ->]. destruct s2 as [l e]. cbn [toks errs] in *. subst l e.
   assert (Hne : ts <> []).
   { intros ->. vm_compute in Hr. discriminate Hr. }
-  rewrite (parse_statement_raw_semi rest Hrest f f' ts q Hne Hskip Hr Hf). cbn [bind].
+  rewrite (parse_statement_raw_semi rest Hrest f f' ts q Hne Hr Hf). cbn [bind].
   unfold printer_check in *. destruct q as [q'|]; [|reflexivity]. cbn [errs] in *.
   destruct (is_nil [] && negb (printable_query false q')); [discriminate Hc|reflexivity].
 Qed.
 
-Theorem parse_model_delimited_partial : forall ts q rest,
-  paren_skip_closed ts = true -> (rest = [] \/ tok_at rest = T_SEMICOLON) ->
+Theorem parse_model_delimited : forall ts q rest,
+  (rest = [] \/ tok_at rest = T_SEMICOLON) ->
   parse_model ts = Ok (q, [], []) -> parse_model (ts ++ rest) = Ok (q, rest, []).
 Proof.
-  intros ts q rest Hskip [-> | Hrest] H.
+  intros ts q rest [-> | Hrest] H.
   - rewrite app_nil_r. exact H.
-  - unfold parse_model in *. eapply parse_model_fuel_semi_partial; try eassumption.
+  - unfold parse_model in *. eapply parse_model_fuel_semi; try eassumption.
     unfold fuel_for. lia.
 Qed.
 
 (* the same for the bare parser, every sufficient fuel *)
-Theorem parse_statement_raw_delimited_partial : forall f f' ts q rest,
-  ts <> [] -> paren_skip_closed ts = true -> tok_at rest = T_SEMICOLON ->
+Theorem parse_statement_raw_delimited : forall f f' ts q rest,
+  ts <> [] -> tok_at rest = T_SEMICOLON ->
   parse_statement_raw f (mkSt ts []) = Ok (q, mkSt [] []) ->
   (3 * List.length (ts ++ rest) + 2 <= f')%nat ->
   parse_statement_raw f' (mkSt (ts ++ rest) []) = Ok (q, mkSt rest []).
-Proof. intros f f' ts q rest Hne Hskip Hrest. apply parse_statement_raw_semi; assumption. Qed.
+Proof. intros f f' ts q rest Hne Hrest. apply parse_statement_raw_semi; assumption. Qed.
 
-(* The excluded class is a real one: "(1" is accepted alone without error (an empty
-   SelectWithUnionQuery); followed by "; SELECT 2" the skipping loop runs through the SEMICOLON and
-   swallows the second statement.  Replayed on /repo: parser.Parse("(1; SELECT 2") returns ONE
-   statement and no error, parser.Parse("(1") and parser.Parse("SELECT 2") one each. *)
+(* The former counterexample (before /repo 1a6cd4528 the skipping loop of parseParenthesizedSelect
+   ran through a SEMICOLON: "(1; SELECT 2" was ONE statement): "(1" is accepted alone without error
+   (an empty SelectWithUnionQuery) and, followed by "; SELECT 2", leaves exactly "; SELECT 2". *)
 Definition wtk (t : N) (v : list N) : item :=
   {| it_tok := t; it_val := v; it_pos := {| p_off := 0; p_line := 1; p_col := 1 |}; it_quoted := false |}.
 Definition witness_stmt : list item := [wtk T_LPAREN [40]; wtk T_NUMBER [49]].                       (* (1 *)
 Definition witness_rest : list item :=
-  [wtk T_SEMICOLON [59]; wtk T_SELECT (bytes_of "SELECT"%string); wtk T_NUMBER [50]].                       (* ; SELECT 2 *)
+  [wtk T_SEMICOLON [59]; wtk T_SELECT (bytes_of "SELECT"%string); wtk T_NUMBER [50]].                (* ; SELECT 2 *)
 
-Lemma delimited_refuted :
+Example unclosed_paren_is_delimited :
   parse_model witness_stmt = Ok (Some (Query [] [] false), [], []) /\
-  tok_at witness_rest = T_SEMICOLON /\
-  parse_model (witness_stmt ++ witness_rest) = Ok (Some (Query [] [] false), [], []) /\
-  parse_model (witness_stmt ++ witness_rest) <> Ok (Some (Query [] [] false), witness_rest, []) /\
-  paren_skip_closed witness_stmt = false.
-Proof. vm_compute. repeat split; try reflexivity. discriminate. Qed.
+  parse_model (witness_stmt ++ witness_rest) = Ok (Some (Query [] [] false), witness_rest, []).
+Proof.
+  assert (H : parse_model witness_stmt = Ok (Some (Query [] [] false), [], [])) by (vm_compute; reflexivity).
+  split; [exact H|]. apply parse_model_delimited; [right; reflexivity|exact H].
+Qed.
